@@ -6,6 +6,7 @@ import (
 	"fmt"
 	"math/rand"
 	"net/url"
+	"os"
 	"sort"
 	"strings"
 	"time"
@@ -90,6 +91,9 @@ func collectObs(evs []json.RawMessage) (map[string]*refObs, error) {
 				}
 			}
 			return sortedKV(m, true)
+		}
+		if e["ev"] == "Probe" && os.Getenv("VERIF_DEBUG_PROBE") != "" {
+			fmt.Println("probe:", string(raw))
 		}
 		switch e["ev"] {
 		case "DriverError":
@@ -208,6 +212,7 @@ func checkC18(c *core.Check) {
 		sd := rng.Int63()
 		seeds = append(seeds, sd)
 		a := wireCarrier(fmt.Sprintf("pre%d", k), aspec.Base{Form: "none"})
+		a.NoComposite = true // (hoisting / inlining random schema compositions runs into the open C01 findings on inline items and nullable: C18 keeps to the wire universe)
 		w := randWireOp(a, k, rand.New(rand.NewSource(sd)))
 		a.Paths = []aspec.PathItem{{Template: w.tmpl, Ops: []aspec.Op{w.op}}}
 		j := a.Job(fmt.Sprintf("pre%d", k))
@@ -248,6 +253,7 @@ func checkC18(c *core.Check) {
 		base := bases[p%len(bases)]
 		packBase[p] = base.NF()
 		a := wireCarrier(fmt.Sprintf("b%do", p), base)
+		a.NoComposite = true // (hoisting / inlining random schema compositions runs into the open C01 findings on inline items and nullable: C18 keeps to the wire universe)
 		// one component request body so that the "bodies" category has a reference site
 		a.RequestBodies = append(a.RequestBodies, aspec.NamedBody{Name: "SharedBody", Body: aspec.Body{K: "json", Schema: &aspec.Schema{K: "ref", To: "Thing"}, Req: true}})
 		a.Headers = append(a.Headers, aspec.NamedHeader{Name: "SharedHeader", Header: aspec.Header{Name: "X-Shared", Schema: aspec.Schema{K: "string"}}})
@@ -308,7 +314,7 @@ func checkC18(c *core.Check) {
 		if _, ex := sc.Excluded[m.id]; ex {
 			continue
 		}
-		groups = append(groups, driver.Group{Pkg: m.id, Kind: "wire", API: driver.APIConfig{Mw: 1, NotFound: true}, Base: packBase[m.pack], Wire: packCases[m.pack]})
+		groups = append(groups, driver.Group{Pkg: m.id, Kind: "wire", ByStatus: true, API: driver.APIConfig{Mw: 1, NotFound: true}, Base: packBase[m.pack], Wire: packCases[m.pack]})
 		groups = append(groups, driver.Group{Pkg: m.id, Kind: "pipeline", API: driver.APIConfig{Mw: 1, NotFound: true}, Cases: packRaw[m.pack]})
 	}
 	evs, _, err := sc.Run(groups, 20*time.Minute)
